@@ -518,4 +518,51 @@ def run (cfg : Config) : State → List Event → Option (State × List Out)
       | none => none
       | some (s2, o2) => some (s2, o1 ++ o2)
 
+/-! ### launcher.ProcessLauncher: working directory, relative pid file, process table
+
+`ProcessLauncher.start` handles the nodes of one host one after the other; for each node
+`_start_process` does `os.chdir(binary_path)`, runs `./bin/elasticsearch -d -p ./pid` (the daemon gets
+a fresh pid and writes it into `./pid` *of the working directory it was launched in*) and then
+`wait_for_pidfile("./pid")` reads `./pid` *of the working directory at that moment*.  The pid that
+is read becomes `cluster.Node.pid`; `ProcessLauncher.stop` terminates `psutil.Process(node.pid)` for
+every node (a pid without a process is only a warning).  Directories and pids are numbers. -/
+
+namespace Launcher
+
+structure World where
+  cwd : Nat
+  pidFile : Nat → Option Nat     -- content of <dir>/pid
+  nextPid : Nat
+  running : List Nat             -- live daemon processes
+  terms : List Nat               -- every SIGTERM delivered, in order
+
+def chdir (w : World) (d : Nat) : World := { w with cwd := d }
+
+/-- run the daemon: fresh pid, alive, pid written to ./pid of the current working directory -/
+def spawn (w : World) : World :=
+  { w with nextPid := w.nextPid + 1, running := w.nextPid :: w.running,
+           pidFile := fun d => if d = w.cwd then some w.nextPid else w.pidFile d }
+
+/-- wait_for_pidfile("./pid") -/
+def readPid (w : World) : Nat := (w.pidFile w.cwd).getD 0
+
+/-- `_start_node`: the node (its installation directory, the pid the mechanic tracks) -/
+def startNode (w : World) (dir : Nat) : World × (Nat × Nat) :=
+  let w1 := spawn (chdir w dir)
+  (w1, (dir, readPid w1))
+
+/-- `ProcessLauncher.start` -/
+def startAll : World → List Nat → World × List (Nat × Nat)
+  | w, [] => (w, [])
+  | w, d :: ds => ((startAll (startNode w d).1 ds).1, (startNode w d).2 :: (startAll (startNode w d).1 ds).2)
+
+/-- one iteration of `ProcessLauncher.stop`: terminate the tracked pid if such a process exists -/
+def stopNode (w : World) (pid : Nat) : World :=
+  if pid ∈ w.running then { w with running := w.running.erase pid, terms := w.terms ++ [pid] } else w
+
+/-- `ProcessLauncher.stop` -/
+def stopAll (w : World) (nodes : List (Nat × Nat)) : World := nodes.foldl (fun w n => stopNode w n.2) w
+
+end Launcher
+
 end Mechanic
